@@ -129,7 +129,12 @@ fn main() {
                 }
                 tr.attrs.retain(|a| !a.path.is_ident("cglue_trait"));
                 let name = tr.ident.to_string();
-                let decl: Vec<String> = tr.items.iter().filter_map(|i| if let syn::TraitItem::Method(m) = i { Some(m.sig.ident.to_string()) } else { None }).collect();
+                // exported methods only: `#[skip_func]` methods have no vtable slot by definition
+                let decl: Vec<String> = tr
+                    .items
+                    .iter()
+                    .filter_map(|i| if let syn::TraitItem::Method(m) = i { if m.attrs.iter().any(|a| a.path.is_ident("skip_func")) { None } else { Some(m.sig.ident.to_string()) } } else { None })
+                    .collect();
                 lines.push(format!("decl {}: {}", name, decl.join(" ")));
                 let text = tr.to_token_stream().to_string();
                 let v = on_fresh_thread(move || {
